@@ -100,6 +100,9 @@ pub fn map_f(x: i64) -> i64 {
 pub enum Topo {
     Unary(UnOp),
     Merge(usize),
+    /// merge!(s.clone(), s.clone(), others..): the first member value is listed twice in a row (n
+    /// distinct puppets, n + 1 members)
+    MergeDup(usize),
     Concat(usize),
     Combine(usize),
     /// number of inner sources the outer puppet carries
@@ -120,7 +123,7 @@ impl Topo {
     pub fn op_name(&self) -> String {
         match self {
             Topo::Unary(u) => u.name().into(),
-            Topo::Merge(_) => "merge".into(),
+            Topo::Merge(_) | Topo::MergeDup(_) => "merge".into(),
             Topo::Concat(_) => "concat".into(),
             Topo::Combine(_) => "combine".into(),
             Topo::Flatten(_) | Topo::FlattenRepeat(_) => "flatten".into(),
@@ -134,6 +137,7 @@ impl Topo {
         match self {
             Topo::Unary(u) => u.describe(),
             Topo::Merge(n) => format!("merge!({} members)", n),
+            Topo::MergeDup(n) => format!("merge!({} members, the first source value listed twice)", n + 1),
             Topo::Concat(n) => format!("concat!({} members)", n),
             Topo::Combine(n) => format!("combine!({} members)", n),
             Topo::Flatten(n) => format!("flatten(outer with {} inners)", n),
@@ -365,15 +369,21 @@ pub fn build(topo: &Topo, pspecs: &[PuppetSpec], lens: &[usize], probe_specs: &[
             let out = u.apply(p.source(), &closure_calls);
             mk_probes(&world, &op, &out, probe_specs, &mut probes, &mut subscribe);
         },
-        Topo::Merge(n) | Topo::Concat(n) => {
+        Topo::Merge(n) | Topo::Concat(n) | Topo::MergeDup(n) => {
             let mut srcs = vec![];
             for i in 0..*n {
                 let p = mk(i, &op);
-                srcs.push(p.source());
+                let src = p.source();
+                if i == 0 && matches!(topo, Topo::MergeDup(_)) {
+                    // the very same Arc, twice
+                    srcs.push(Arc::clone(&src));
+                    info.members.push(0);
+                }
+                srcs.push(src);
                 puppets.push(Box::new(p));
                 info.members.push(i);
             }
-            let out: Src<V> = if matches!(topo, Topo::Merge(_)) {
+            let out: Src<V> = if matches!(topo, Topo::Merge(_) | Topo::MergeDup(_)) {
                 Arc::new(callbag::merge(srcs.into_boxed_slice()))
             } else {
                 Arc::new(callbag::concat(srcs.into_boxed_slice()))
